@@ -120,7 +120,9 @@ class PyArrowFilterEngine(BaseFilterEngine):
         # Convert column to string type for regex matching
         column = data[column_name]
         # Apply regex filter directly
-        mask = pc.match_substring_regex(column, value)
+        # Anchor at the start of the string like re.match, which the pandas and python-dict engines use
+        pattern = value if value.startswith("^") else f"^(?:{value})"
+        mask = pc.match_substring_regex(column, pattern)
         return data.filter(mask)
 
     @classmethod
